@@ -92,7 +92,7 @@ def gen_sequences(ctx: C.Ctx):
     exhaustive_n = len(seqs)
     rng = ctx.rng
     pool = NAMES + EXTRA_NAMES
-    for _ in range(ctx.budget(1500, 60000)):
+    for _ in range(ctx.budget(1500, 25000)):
         L = rng.randint(3, 60 if ctx.tier == "thorough" else 25)
         s = []
         handed = []
